@@ -41,8 +41,35 @@ def variants_of(K):
     return out
 
 
+def verify_lemma(name):
+    t0 = time.time()
+    idx = repo_index()
+    load_contracts()
+    lname = name[len("lemma:"):]
+    eng = engine.Engine(idx)
+    recs = []
+    desc = {"function": name, "file": "contracts/ (lemma over contracts only)", "lines": None}
+    try:
+        obls = eng.verify_lemma(lname)
+    except Unsupported as exc:
+        return name, desc, [{"name": f"{name}:*", "kind": "generation", "function": name, "status": "undecided", "backend": "pyvc", "ms": 0.0, "note": f"Unsupported: {exc}"}]
+    except Exception as exc:  # noqa: BLE001
+        return name, desc, [{"name": f"{name}:*", "kind": "generation", "function": name, "status": "undecided", "backend": "pyvc", "ms": 0.0,
+                             "note": f"generator error: {type(exc).__name__}: {exc}\n{traceback.format_exc(limit=4)}"}]
+    for ob in obls:
+        try:
+            recs.append(solve.discharge(ob))
+        except Exception as exc:  # noqa: BLE001
+            recs.append({"name": ob.name, "kind": ob.kind, "function": name, "status": "undecided", "backend": "solver-error", "ms": 0.0, "note": str(exc)})
+    desc["callee_contracts_used"] = sorted(eng.used_contracts)
+    desc["seconds"] = round(time.time() - t0, 2)
+    return name, desc, recs
+
+
 def verify_function(qualname):
     """Worker: all obligations of one function -> list of records."""
+    if qualname.startswith("lemma:"):
+        return verify_lemma(qualname)
     t0 = time.time()
     idx = repo_index()
     load_contracts()
@@ -87,7 +114,9 @@ def run_functions(names, procs=None):
 
 def contracts_for(prop):
     load_contracts()
-    return sorted(n for n, K in dsl.CONTRACTS.items() if prop in K.props and not K.assumed)
+    out = sorted(n for n, K in dsl.CONTRACTS.items() if prop in K.props and not K.assumed)
+    out += sorted(f"lemma:{n}" for n, L in dsl.LEMMAS.items() if prop in L["props"])
+    return out
 
 
 def run_property(ctx, prop):
@@ -104,7 +133,7 @@ if __name__ == "__main__":
 
     repo.import_permuta()
     load_contracts()
-    names = sys.argv[1:] or sorted(n for n, K in dsl.CONTRACTS.items() if not K.assumed)
+    names = sys.argv[1:] or (sorted(n for n, K in dsl.CONTRACTS.items() if not K.assumed) + sorted(f"lemma:{n}" for n in dsl.LEMMAS))
     bad = 0
     for q, desc, recs in run_functions(names):
         print(f"== {q}  ({desc.get('file')}:{desc.get('lines')})  {desc.get('seconds')}s")
